@@ -146,6 +146,34 @@ class _NeedsReordering(Exception):
     """Raise this to request reordering."""
 
 
+class _SuspendedReordering:
+    """Context manager that disables reordering requests.
+
+    For computations that assume that
+    the variable order remains unchanged.
+    """
+
+    def __init__(
+            self,
+            bdd:
+                'BDD'
+            ) -> None:
+        self.bdd = bdd
+        self.last_len = None
+
+    def __enter__(
+            self):
+        self.last_len = self.bdd._last_len
+        self.bdd._last_len = None
+
+    def __exit__(
+            self,
+            ex_type,
+            ex_value,
+            tb):
+        self.bdd._last_len = self.last_len
+
+
 _Yes: _ty.TypeAlias = dd._abc.Yes
 _Nat: _ty.TypeAlias = dd._abc.Nat
 _Cardinality: _ty.TypeAlias = dd._abc.Cardinality
@@ -2780,9 +2808,12 @@ def image(
     s.intersection_update(rename.values())
     if s:
         raise AssertionError(s)
-    return _image(
-        trans, source, rename_u, rename_v,
-        qvars, bdd, forall, cache)
+    # intermediate results are unreferenced, and
+    # the levels above have already been computed
+    with _SuspendedReordering(bdd):
+        return _image(
+            trans, source, rename_u, rename_v,
+            qvars, bdd, forall, cache)
 
 
 def preimage(
@@ -2833,9 +2864,12 @@ def preimage(
     rename_v = rename
     # check
     _assert_valid_rename(target, bdd, rename)
-    return _image(
-        trans, target, rename_u, rename_v,
-        qvars, bdd, forall, cache)
+    # intermediate results are unreferenced, and
+    # reordering could separate the renamed pairs
+    with _SuspendedReordering(bdd):
+        return _image(
+            trans, target, rename_u, rename_v,
+            qvars, bdd, forall, cache)
 
 
 def _image(
@@ -3139,10 +3173,13 @@ def copy_bdd(
             to_bdd.level_of_var(var)
         for var in from_bdd.vars
         if var in to_bdd.vars}
-    r = _copy_bdd(
-        u, level_map,
-        from_bdd, to_bdd,
-        cache=dict())
+    # intermediate results are unreferenced, and
+    # `level_map` assumes the current order
+    with _SuspendedReordering(to_bdd):
+        r = _copy_bdd(
+            u, level_map,
+            from_bdd, to_bdd,
+            cache=dict())
     return r
 
 
